@@ -147,6 +147,18 @@ PROPS = {
                 "(not-supported; add / replace / delete of default, config, mandatory, min-elements, max-elements; 12 % chosen against what the RFC allows for the node); compared: the compile verdict and error class, "
                 "the dump of the compiled tree, and — on the real code — dump(module + deviations) = dump(module edited accordingly)",
     },
+    "C12": {
+        "streams": {"yuses": {"quick": 2500, "thorough": 120000}},
+        "trusted": ["the generator writes the inline module first and factors parts of it out (groupings, refines, augments under uses, module-level augments): the two modules are equivalent by construction of the factoring steps",
+                    "the canonical dump of a compiled ModelSet and the error classes (harness)"],
+        "modelled": ["when and status on uses / augment, refines of must / description / reference, submodules, opd:augment are not generated",
+                     "a name is used once per module (plus the copies a second uses of a grouping makes): the namespace of a node is looked up by name",
+                     "augments are applied in the order written (an augment whose target is added by a later augment is not generated)"],
+        "rule": "random inline modules; 1-3 groupings factored out of random child ranges (module body, containers, lists, cases), 30 % into an imported module, 40 % factored again inside (nesting depth <= 3), "
+                "with refines (default, mandatory, presence, min/max-elements) removed from the grouping and written under the uses, an augment under the uses taking part of a container two or more levels down, "
+                "an if-feature on the uses, and in 30 % a second uses of the same grouping elsewhere without the refines; 0-2 module-level augments, 45 % of them in another module (namespace of the added nodes); "
+                "compared on the real code: dump(factored) = dump(inline) without namespaces, and the namespace of every node; compared with the Lean expansion model: verdict, error class, dump",
+    },
     "C04": {
         "streams": {"xsmall": {"quick": 1, "thorough": 1, "spec_proj": "accept"},
                     "xfuzz": {"quick": 30000, "thorough": 1000000, "spec_proj": "accept"}},
